@@ -21,10 +21,14 @@ func main() {
 	// one request per process: "a b k reps" on the command line. No warm-up of any kind happens
 	// before the goroutines are released (lazily built shared state must be built concurrently);
 	// the results are printed and compared with the solo results by the parent.
-	if len(os.Args) != 5 {
+	if len(os.Args) != 5 && len(os.Args) != 6 {
 		os.Exit(3)
 	}
 	var a, b, k, reps int
+	pro := -1 // optional sequential prologue operation (an operation that ends in an error exit)
+	if len(os.Args) == 6 {
+		fmt.Sscan(os.Args[5], &pro)
+	}
 	fmt.Sscan(os.Args[1], &a)
 	fmt.Sscan(os.Args[2], &b)
 	fmt.Sscan(os.Args[3], &k)
@@ -33,6 +37,10 @@ func main() {
 	ops.PrepareFor(all, []int{a, b})
 	out := bufio.NewWriter(os.Stdout)
 	defer out.Flush()
+	if pro >= 0 {
+		ops.PrepareFor(all, []int{pro})
+		fmt.Fprintf(out, "PRO %q\n", all[pro].Run())
+	}
 	for r := 0; r < reps; r++ {
 		var wg sync.WaitGroup
 		start := make(chan struct{})
